@@ -13,6 +13,18 @@ border-only detector and with the full detector (interior creases).  Each run is
 and judged clause by clause by an oracle that only looks at the *input face list* and the *observed outputs*
 with its own incidence code (mc.families topology helpers): it never looks at the feature set, at shortest
 paths or at the library's connectivity.
+
+Reporting.  Clauses are grouped (faces | cut: disk / singular vertices on the border / border kept / connected |
+rebuild: opened <=> reported | ref: ref_vertex | views: cut_adj, cut_graph); per run only the first failing clause of
+a group is reported (the later ones are its consequences).  The input_class of a failure is the class of a *minimal
+failing configuration* derived from the failing input by re-running the real code: singular vertices are dropped
+one at a time while the same clause keeps failing, and (without creases) the other coordinate alphabet is tried:
+
+    <sphere|closed:g>0|disk|bordered:b>1|bordered:g>0> | <S0|S1|S2:adj|S2:apart|S3|S>3 of the minimal set>
+      | <geom=any|geom=ties-only|geom=generic-only|geom=*> | <feat=off|feat=crease>
+
+(feat=off: no detector or a detector that found border edges only - the cutter's plain code path; geom=* with creases,
+where the coordinates decide the feature set and are not an independent dimension).
 """
 from __future__ import annotations
 import itertools
@@ -654,6 +666,8 @@ class Session:
         rep.flag(res["fcls"]); rep.flag("geom:" + geom)
         if res["feature_path"]:
             rep.flag("cutter_took_feature_path")
+        if first is not None:
+            rep.flag("second_run_on_used_mesh")
         if res["result"] == "uncut":
             rep.flag("sphere_left_uncut")
         if T.loops == 0 and T.genus == 0 and len(S) >= 2:
@@ -695,7 +709,7 @@ def finish(tier, rep: Report):
     fails = []
     need = ["topo:g0:b0", "topo:g0:b1", "topo:g0:b2", "topo:g0:b3", "topo:g1:b0", "topo:g1:b1", "sing:S0", "sing:S1", "sing:S2:adj",
             "sing:S2:apart", "sing:Sall", "feat=none", "feat=border", "feat=crease", "geom:ties", "geom:generic",
-            "cutter_took_feature_path", "sphere_left_uncut", "sphere_cut", "singularities_on_and_off_border"]
+            "cutter_took_feature_path", "sphere_left_uncut", "sphere_cut", "singularities_on_and_off_border", "second_run_on_used_mesh"]
     if tier == "thorough":
         need.append("sing:S3")
     for f in need:
